@@ -72,6 +72,16 @@ func (m *Metrics) Write(w io.Writer) error {
 	if err := write("UnderlineThickness %.0f", m.UnderlineThickness); err != nil {
 		return err
 	}
+	if m.Version != "" {
+		if err := write("Version %s", m.Version); err != nil {
+			return err
+		}
+	}
+	if m.Notice != "" {
+		if err := write("Notice %s", m.Notice); err != nil {
+			return err
+		}
+	}
 	if err := write("CapHeight %.0f", m.CapHeight); err != nil {
 		return err
 	}
